@@ -1,6 +1,8 @@
 import BarterModel.Driver.Common
 import BarterModel.Model.Connectivity
-/-! Line-protocol driver for C14. Ops: `init n`, `mkt e`, `acc e`, `mktre e`, `accre e`. -/
+/-! Line-protocol driver for C14. Ops: `init n [on]` (n ≤ 10; `on` = trading enabled, which connectivity does
+not depend on), `mkt e [trade|l1|book|candle|liq]`, `acc e [trade|bal|snap|ord|canc]` (the kind of the item:
+every kind is an item of its link), `mktre e`, `accre e`. -/
 namespace BarterModel.Driver.C14
 open BarterModel.Driver BarterModel.Conn
 
@@ -13,9 +15,20 @@ def obs (global : Health) (links : List CState) (disc : List Nat) : List String 
     "links " ++ " ".intercalate (links.map fun c => h2s c.marketData ++ h2s c.account),
     "disc " ++ " ".intercalate (disc.map toString) ]
 
+def marketKinds : List String := ["trade", "l1", "book", "candle", "liq"]
+def accountKinds : List String := ["trade", "bal", "snap", "ord", "canc"]
+
+/-- `init n` / `init n on`, `n ≤ 10` (the harness has ten exchange labels). -/
+def parseInit : List String → Option Nat
+  | ["init", n] => n.toNat?.bind fun n => if n ≤ 10 then some n else none
+  | ["init", n, "on"] => n.toNat?.bind fun n => if n ≤ 10 then some n else none
+  | _ => none
+
 def parseEv : List String → Option Ev
   | ["mkt", e] => e.toNat?.map .marketItem
   | ["acc", e] => e.toNat?.map .accountItem
+  | ["mkt", e, k] => if marketKinds.contains k then e.toNat?.map .marketItem else none
+  | ["acc", e, k] => if accountKinds.contains k then e.toNat?.map .accountItem else none
   | ["mktre", e] => e.toNat?.map .marketReconnecting
   | ["accre", e] => e.toNat?.map .accountReconnecting
   | _ => none
@@ -24,8 +37,8 @@ def model : Drv Eng where
   init := Eng.init 0
   step s toks :=
     match toks with
-    | ["init", n] =>
-      match n.toNat? with
+    | "init" :: _ =>
+      match parseInit toks with
       | some n => let s' := Eng.init n; (s', obs s'.conn.global s'.conn.exchanges s'.disconnects)
       | none => (s, ["bad-op"])
     | _ =>
@@ -49,8 +62,8 @@ def spec : Drv SpecSt where
         ((List.range s.n).map fun e => ⟨specMarket e s.evs, specAccount e s.evs⟩)
         (specDisconnects s.evs)
     match toks with
-    | ["init", n] =>
-      match n.toNat? with
+    | "init" :: _ =>
+      match parseInit toks with
       | some n => let s' : SpecSt := ⟨n, []⟩; (s', out s')
       | none => (s, ["bad-op"])
     | _ =>
